@@ -14,7 +14,7 @@ def main(tier):
         if prop != "c14":
             continue
         r.violation(key, f"{f['clause']} [seed={f['seed']} passes={f['path']}]: {f['detail']}",
-                    {"engine": "E1-pass", "seed": f["seed"], "history": f["path"], "oracle": f["clause"], "detail": f["detail"]})
+                    {"engine": "E1-pass", "seed": f["seed"], "seed_hex": f.get("seed_hex"), "history": f["path"], "oracle": f["clause"], "detail": f["detail"]})
     for key, f in sorted(f2.items()):
         r.violation(key, f"{f['clause']} [seed={f['seed']} pass={f['path']}]: {f['detail']}",
                     {"engine": "E1-pass", "seed": f["seed"], "history": f["path"], "oracle": f["clause"], "detail": f["detail"]})
@@ -33,4 +33,6 @@ def main(tier):
 
 
 def replay(obj):
-    return True, "re-run ./check C14"
+    if obj.get("seed_hex"):
+        return _passes.replay_history(obj["seed_hex"], obj["history"], "c14", obj["oracle"])
+    return True, "composition / fault-injection case: re-run ./check C14"
